@@ -17,7 +17,8 @@ def run(tier, seed):
     for _ in range(reps):
         for p in PROTOS:
             cases.append({"name": "t%d" % len(cases), "kind": "intrude", "proto": p})
-            cases.append({"name": "t%d" % len(cases), "kind": "impostor", "proto": p})
+            cases.append({"name": "t%d" % len(cases), "kind": "impostor", "impostor": "othercert", "proto": p})
+            cases.append({"name": "t%d" % len(cases), "kind": "impostor", "impostor": "nocert", "proto": p})
     obs, crashes = vlib.run_cases(b["drivers"], "TestMTLSCases", cases, "c12", env={"VERIF_VPLUGIN": b["vplugin"], "VERIF_CASE_TIMEOUT_S": "120"},
                                   shards=min(6, len(cases)), serial=True, timeout=1800)
     by = {c["name"]: c for c in cases}
@@ -33,7 +34,8 @@ def run(tier, seed):
     for name in dev:
         o, c = obs[name], by[name]
         if c["kind"] == "impostor":
-            rep.violation("c12:impostor:%s" % c["proto"], "%s: a plugin that announced one certificate and served with another was used successfully: %s" % (c["proto"], json.dumps(o["out"])),
+            how = "announced no certificate and served in plaintext" if c.get("impostor") == "nocert" else "announced one certificate and served with another"
+            rep.violation("c12:impostor:%s:%s" % (c.get("impostor", "othercert"), c["proto"]), "%s: a plugin that %s was used successfully (or Start failed to complete): %s" % (c["proto"], how, json.dumps(o["out"])),
                           {"case": c, "observation": o})
             continue
         wrong = [a for a in o["out"]["attempts"] if a["served"] != (a["cred"] == "peer_keypair")]
